@@ -20,6 +20,7 @@ def svcName : String → Option Nat
   | "H" => some 6 | "I" => some 7 | "J" => some 8     -- H: same generic service, other parameter; I/J: names differing in `::` vs `_`
   | "K" => some 9 | "L" => some 18                     -- K: `gen-M1-`; L: `pair<M1, M2>` (a space and a comma in the name)
   | "Q" => some 21                                     -- `kv`: a strict prefix of the names of I and J
+  | "R" => some 22 | "T" => some 23 | "V" => some 24   -- `kv-admin`, `kv.internal`, `gen`: prefixes continued by a byte below `/`
   | "X" => some 19 | "Y" => some 20                    -- two names whose paths for `u64` collide under the 64-bit std hash (D26)
   | "P0" => some 10 | "P1" => some 11 | "P2" => some 12 | "P3" => some 13
   | "P4" => some 14 | "P5" => some 15 | "P6" => some 16 | "P7" => some 17 | _ => none
@@ -27,7 +28,7 @@ def svcName : String → Option Nat
 /-- Handler keys of a service type (hash injectivity: distinct numbers; key = 100 * name + message). -/
 def keysOfType : String → List Nat
   | "A" => [1] | "B" => [101] | "C" => [201, 202] | "D" => [301] | "E" => [302] | "S" => [401, 402, 403, 404] | "G" => [501]
-  | "H" => [601] | "I" => [701] | "J" => [801] | "K" => [901] | "L" => [1801] | "X" => [1905] | "Y" => [2005] | "Q" => [2101]
+  | "H" => [601] | "I" => [701] | "J" => [801] | "K" => [901] | "L" => [1801] | "X" => [1905] | "Y" => [2005] | "Q" => [2101] | "R" => [2201] | "T" => [2301] | "V" => [2401]
   | "P0" => [1001] | "P1" => [1101] | "P2" => [1201] | "P3" => [1301]
   | "P4" => [1401] | "P5" => [1501] | "P6" => [1601] | "P7" => [1701] | _ => []
 
